@@ -15,7 +15,10 @@ import (
 )
 
 func readRules(input io.Reader) ([]rule, error) {
-	rules := defaultExclusions
+	// Work on a copy: marking rules as having negations after them must not
+	// leak into the package-level defaults, which every other rule set
+	// (and DefaultRuleset itself) is built from.
+	rules := append([]rule(nil), defaultExclusions...)
 	scanner := bufio.NewScanner(input)
 	scanner.Split(bufio.ScanLines)
 	currentRuleIndex := len(defaultExclusions) - 1
